@@ -1,4 +1,5 @@
 import RTV.Lemmas.Span
+import RTV.Lemmas.Merged
 /-!
 # C12 — entities returned by one call never overlap
 
@@ -172,3 +173,55 @@ theorem overlap_cover_meaning (d v : ER) :
   ⟨overlap_iff d v, not_overlap_iff_disjoint d v, cover_iff d v⟩
 
 end RTV.Span
+
+namespace RTV.Merged
+open RTV.Py RTV.Span
+
+/-- C12 `BaseMergedExtractor.extract`, for ANY sub-extractor outputs, regex outcomes and modifier merges: the
+returned entities are pairwise disjoint whenever no `add_to` step inserts a crossing value (`ChainNoCrossing`,
+the exact per-step condition by `addOne_disjoint_iff`) and the modifier extensions stay clear of each other. -/
+theorem mergedExtract_disjoint (src : Str) (inputs : List (List ER)) (unspecific ambiguous : ER → Bool)
+    (ops : Nat → List ModOp) (calendar : ER → Bool) (hc : ChainNoCrossing [] inputs)
+    (hx : ExtClear src ops ((removeIter unspecific (addChain inputs)).filter fun e => !ambiguous e)) :
+    (mergedExtract src inputs unspecific ambiguous ops calendar).Pairwise Disjoint := by
+  unfold mergedExtract
+  simp only
+  have h0 : (addChain inputs).Pairwise Disjoint := chain_disjoint inputs [] (by simp) hc
+  have h1 := (h0.sublist (removeIter_sublist unspecific _)).sublist
+    (List.filter_sublist (p := fun e => !ambiguous e))
+  apply (sortByStart_spec Disjoint (fun _ _ h => h.symm) _).2
+  apply List.Pairwise.sublist List.filter_sublist
+  unfold addMods
+  rw [List.pairwise_map]
+  have : ((removeIter unspecific (addChain inputs)).filter fun e => !ambiguous e).Pairwise
+      (fun a b => a ∈ ((removeIter unspecific (addChain inputs)).filter fun e => !ambiguous e) ∧
+        b ∈ ((removeIter unspecific (addChain inputs)).filter fun e => !ambiguous e) ∧ Disjoint a b) := by
+    rw [List.pairwise_iff_forall_sublist] at h1 ⊢
+    intro a b hab
+    exact ⟨hab.subset (by simp), hab.subset (by simp), h1 hab⟩
+  exact this.imp (fun ⟨ha, hb, hd⟩ => hx _ ha _ hb hd)
+
+/-- … and the chain condition holds for every family of non-empty sub-extractor outputs that are nested or apart:
+crossing candidates are the only way `add_to` produces an overlap. -/
+theorem mergedExtract_disjoint_of_laminar (src : Str) (inputs : List (List ER)) (unspecific ambiguous : ER → Bool)
+    (ops : Nat → List ModOp) (calendar : ER → Bool)
+    (hl : ∀ l ∈ inputs, ∀ a ∈ l, ∀ l' ∈ inputs, ∀ b ∈ l', Laminar a b) (hp : ∀ l ∈ inputs, ∀ a ∈ l, 0 < a.len)
+    (hx : ExtClear src ops ((removeIter unspecific (addChain inputs)).filter fun e => !ambiguous e)) :
+    (mergedExtract src inputs unspecific ambiguous ops calendar).Pairwise Disjoint :=
+  mergedExtract_disjoint src inputs unspecific ambiguous ops calendar
+    (chain_of_universe (fun a => ∃ l ∈ inputs, a ∈ l)
+      (fun a b ⟨l, hl1, ha⟩ ⟨l', hl2, hb⟩ => hl l hl1 a ha l' hl2 b hb) (fun a ⟨l, hl1, ha⟩ => hp l hl1 a ha)
+      inputs [] (by simp) (fun l hl1 v hv => ⟨l, hl1, hv⟩) (by simp)) hx
+
+/-- the counter-model inside the pipeline: date period `[0,3]`, duration `[5,9]`, then a date-time period `[0,6]`. -/
+theorem mergedExtract_crossing_counterexample :
+    let inputs : List (List ER) := [[⟨0, 4, [], 0⟩], [⟨5, 5, [], 1⟩], [⟨0, 7, [], 2⟩]]
+    ¬ ChainNoCrossing [] inputs ∧
+    ¬ (mergedExtract [] inputs (fun _ => false) (fun _ => false) (fun _ => []) (fun _ => false)).Pairwise Disjoint := by
+  decide
+
+/-- C12: `NoCrossing` is the exact condition of one `add_to` step (re-exported from the lemmas). -/
+theorem addTo_step_disjoint_iff (dst : List ER) (v : ER) (hd : dst.Pairwise Disjoint) :
+    (addOne (fun _ => false) dst v).Pairwise Disjoint ↔ NoCrossing dst v := addOne_disjoint_iff dst v hd
+
+end RTV.Merged
